@@ -184,18 +184,19 @@ const (
 
 // construct is one error-raising construct.
 type construct struct {
-	id      string
-	setup   []seg
-	text    string
-	anchor  int // offset in text of the position the convention names
-	kind    ckind
-	native  bool   // raised inside a native function called (not constructed) by the construct: innermost native frame optional
-	class   string // expected constructor; "" for thrown non-Error values
-	name    string // expected e.name when it differs from class
-	msg     string // exact message when the script supplies it
-	nonErr  bool   // a thrown value that is not an Error instance: Go side is a plain error with the value's ToString
-	group   string // input class used by signatures
-	noTrace bool   // trace not asserted (error object created elsewhere)
+	id       string
+	setup    []seg
+	text     string
+	anchor   int // offset in text of the position the convention names
+	kind     ckind
+	native   bool   // raised inside a native function called (not constructed) by the construct: innermost native frame optional
+	class    string // expected constructor; "" for thrown non-Error values
+	name     string // expected e.name when it differs from class
+	msg      string // exact message when the script supplies it
+	nonErr   bool   // a thrown value that is not an Error instance: Go side is a plain error with the value's ToString
+	group    string // input class used by signatures
+	noTrace  bool   // trace not asserted (error object created elsewhere)
+	argCalls []int  // offsets in text of calls evaluated in the construct's own argument list (recorded before the anchor)
 }
 
 func s(text string) seg                     { return seg{text: text} }
@@ -253,6 +254,8 @@ func buildConstructs() []construct {
 	add(construct{id: "toString-radix1", setup: vars("var n = 5;"), text: "n.toString(1)", native: true, class: "RangeError", group: "number"})
 	add(construct{id: "toString-radix37", setup: vars("var n = 5;"), text: "n.toString(37)", native: true, class: "RangeError", group: "number"})
 	add(construct{id: "toPrecision-0", setup: vars("var n = 5;"), text: "n.toPrecision(0)", native: true, class: "RangeError", group: "number"})
+	add(construct{id: "toFixed-argcall", setup: vars("var n = 5;"), text: "n.toFixed(nop() || 21)", native: true, class: "RangeError", group: "number",
+		argCalls: []int{10}})
 	// syntax errors raised at run time
 	add(construct{id: "eval-syntax", text: `eval("var = 1")`, native: true, class: "SyntaxError", group: "syntax"})
 	add(construct{id: "new-Function-syntax", text: `new Function("var = 1")`, anchor: 4, class: "SyntaxError", group: "syntax"})
@@ -273,6 +276,10 @@ func buildConstructs() []construct {
 	for _, n := range nativeErrors {
 		add(construct{id: "throw-call-" + n, text: `throw ` + n + `("m")`, anchor: 6, native: true, class: n, msg: "m", group: "throw"})
 	}
+	add(construct{id: "throw-new-argcall", setup: vars("function mm(){ return \"m\"; }"), text: `throw new TypeError(mm())`, anchor: 10, class: "TypeError", msg: "m",
+		group: "throw", argCalls: []int{20}})
+	add(construct{id: "throw-call-argcall", setup: vars("function mm(){ return \"m\"; }"), text: `throw TypeError(mm())`, anchor: 6, native: true, class: "TypeError", msg: "m",
+		group: "throw", argCalls: []int{16}})
 	// thrown values that are not Error instances
 	for _, v := range []struct{ id, expr string }{{"number", "1.5"}, {"string", `"s"`}, {"boolean", "true"}, {"null", "null"},
 		{"undefined", "undefined"}, {"object", "{a: 1}"}, {"object-toString", `{toString: function(){ return "T"; }}`}, {"array", "[1, 2]"}} {
@@ -320,6 +327,7 @@ type gen struct {
 	lay    layout
 	fname  string
 	wrap   int
+	args   int // argument-list variant of every explicit call site (argVariants)
 
 	top    *gfile
 	frames []*frame // outermost first
@@ -392,7 +400,7 @@ func (g *gen) usesEvalLong() bool {
 func (g *gen) build() string {
 	g.top = &gfile{name: g.fname}
 	w := &tbuf{f: g.top}
-	w.put("function nop(){}" + g.sep())
+	w.put("function nop(){}" + g.argHelpers() + g.sep())
 	if g.usesEvalLong() {
 		w.put(g.sep() + "var EV = " + ox.JSLit(evalLongSrc) + ";")
 	}
@@ -425,6 +433,20 @@ func (g *gen) level(w *tbuf, pf *frame, lvl int) {
 		pf.events = append(pf.events, event{kind: evImplicit, off: o, end: e})
 		g.hasImplicit = true
 	}
+	// call writes "<head>(<fixed><argument list variant>);" and records the call
+	// site (start of the callee = start of head + skip) AFTER the calls made while
+	// the arguments are evaluated (ES5 11.2.3: callee, then arguments, then the call).
+	call := func(head string, skip int, fixed string, isRef bool) {
+		o := w.put(head) + skip
+		w.put("(" + fixed)
+		g.argList(w, pf, fixed != "")
+		w.put(");")
+		if isRef {
+			ref(o)
+		} else {
+			nonref(o)
+		}
+	}
 	sep := g.sep()
 	switch g.shapes[lvl] {
 	case shDecl:
@@ -432,41 +454,41 @@ func (g *gen) level(w *tbuf, pf *frame, lvl int) {
 		g.body(w, g.push("f"+id, w.f), lvl+1)
 		w.put("}")
 		g.pre(w, pf, lvl)
-		ref(w.put("f" + id + "();"))
+		call("f"+id, 0, "", true)
 	case shAnon:
 		w.put("var f" + id + " = function(){")
 		g.body(w, g.push("", w.f), lvl+1)
 		w.put("};")
 		g.pre(w, pf, lvl)
-		ref(w.put("f" + id + "();"))
+		call("f"+id, 0, "", true)
 	case shNamed:
 		w.put("var v" + id + " = function f" + id + "(){")
 		g.body(w, g.push("f"+id, w.f), lvl+1)
 		w.put("};")
 		g.pre(w, pf, lvl)
-		ref(w.put("v" + id + "();"))
+		call("v"+id, 0, "", true)
 	case shMethodDot, shMethodBr:
 		w.put("var o" + id + " = {m: function(){")
 		g.body(w, g.push("", w.f), lvl+1)
 		w.put("}};")
 		g.pre(w, pf, lvl)
 		if g.shapes[lvl] == shMethodDot {
-			ref(w.put("o" + id + ".m();"))
+			call("o"+id+".m", 0, "", true)
 		} else {
-			ref(w.put("o" + id + `["m"]();`))
+			call("o"+id+`["m"]`, 0, "", true)
 		}
 	case shCtor:
 		w.put("function F" + id + "(){")
 		g.body(w, g.push("F"+id, w.f), lvl+1)
 		w.put("}")
 		g.pre(w, pf, lvl)
-		ref(w.put("new F"+id+"();") + 4)
+		call("new F"+id, 4, "", true)
 	case shCtorMember:
 		w.put("var o" + id + " = {C: function F" + id + "(){")
 		g.body(w, g.push("F"+id, w.f), lvl+1)
 		w.put("}};")
 		g.pre(w, pf, lvl)
-		ref(w.put("new o"+id+".C();") + 4)
+		call("new o"+id+".C", 4, "", true)
 	case shGetter:
 		w.put("var o" + id + " = {get g(){")
 		g.body(w, g.push("", w.f), lvl+1)
@@ -503,7 +525,7 @@ func (g *gen) level(w *tbuf, pf *frame, lvl int) {
 		case shReplace:
 			ref(w.put(`"a".replace("a", f` + id + ");"))
 		case shCall:
-			ref(w.put("f" + id + ".call(null);"))
+			call("f"+id+".call", 0, "null", true)
 		case shApply:
 			ref(w.put("f" + id + ".apply(null, []);"))
 		case shHost:
@@ -517,7 +539,7 @@ func (g *gen) level(w *tbuf, pf *frame, lvl int) {
 		w.put("}" + sep + "var b" + id + " = ")
 		ref(w.put("f" + id + ".bind(null);"))
 		g.pre(w, pf, lvl)
-		ref(w.put("b" + id + "();"))
+		call("b"+id, 0, "", true)
 	case shEvalDirect:
 		g.pre(w, pf, lvl)
 		o := w.off()
@@ -559,33 +581,36 @@ func (g *gen) level(w *tbuf, pf *frame, lvl int) {
 		w.put("new Function(" + ox.JSLit(f2.src) + ");")
 		ref(no)
 		g.pre(w, pf, lvl)
-		ref(w.put("F" + id + "();"))
+		call("F"+id, 0, "", true)
 	case shIIFE, shIIFENamed:
 		g.pre(w, pf, lvl)
 		name := ""
 		if g.shapes[lvl] == shIIFENamed {
 			name = "f" + id
 		}
-		nonref(w.put("(function ") + 1)
+		io := w.put("(function ") + 1
 		w.put(name + "(){")
 		g.body(w, g.push(name, w.f), lvl+1)
-		w.put("})();")
+		w.put("})(")
+		g.argList(w, pf, false)
+		w.put(");")
+		nonref(io)
 	case shCallResult, shNewCallResult:
 		w.put("function mk" + id + "(){ return function f" + id + "(){")
 		g.body(w, g.push("f"+id, w.f), lvl+1)
 		w.put("}; }")
 		g.pre(w, pf, lvl)
 		if g.shapes[lvl] == shCallResult {
-			nonref(w.put("mk" + id + "()();"))
+			call("mk"+id+"()", 0, "", false)
 		} else {
-			nonref(w.put("new (mk"+id+"())();") + 5)
+			call("new (mk"+id+"())", 5, "", false)
 		}
 	case shCondCallee:
 		w.put("function f" + id + "(){")
 		g.body(w, g.push("f"+id, w.f), lvl+1)
 		w.put("}")
 		g.pre(w, pf, lvl)
-		nonref(w.put("(1 ? f"+id+" : 0)();") + 1)
+		call("(1 ? f"+id+" : 0)", 1, "", false)
 	default:
 		panic("shape")
 	}
@@ -603,6 +628,9 @@ func (g *gen) construct(w *tbuf, fr *frame, lvl int) {
 	w.put(wraps[g.wrap].pre)
 	o := w.put(k.text + ";")
 	w.put(wraps[g.wrap].post)
+	for _, a := range k.argCalls {
+		fr.events = append(fr.events, event{kind: evRef, off: o + a})
+	}
 	switch k.kind {
 	case ckRef:
 		fr.events = append(fr.events, event{kind: evRef, off: o + k.anchor})
@@ -655,7 +683,7 @@ func (g *gen) buildFiles() []script {
 	top := g.push("", files[0])
 	prev := top
 	// entry script (run last)
-	bufs[0].put("function nop(){}" + g.sep())
+	bufs[0].put("function nop(){}" + g.argHelpers() + g.sep())
 	if g.usesEvalLong() {
 		bufs[0].put("var EV = " + ox.JSLit(evalLongSrc) + ";" + g.sep())
 	}
@@ -671,7 +699,10 @@ func (g *gen) buildFiles() []script {
 		// call site of f<i> in the previous level
 		pw := bufs[i-1]
 		g.pre(pw, prev, i-1)
-		prev.events = append(prev.events, event{kind: evRef, off: pw.put("f" + strconv.Itoa(i) + "();")})
+		co := pw.put("f" + strconv.Itoa(i) + "(")
+		g.argList(pw, prev, false)
+		pw.put(");")
+		prev.events = append(prev.events, event{kind: evRef, off: co})
 		if i > 1 {
 			pw.put(" }")
 		}
@@ -700,4 +731,85 @@ func showScripts(l []script) string {
 		p[i] = fmt.Sprintf("%s=%q", sc.name, sc.src)
 	}
 	return strings.Join(p, " ; ")
+}
+
+// ---------------------------------------------------------------------------
+// Argument lists of the call sites
+// ---------------------------------------------------------------------------
+
+// argVariants are the argument lists given to every explicit call site of a
+// program (call, method call, new, IIFE, ...). Calls made while the arguments
+// are evaluated record their own call sites in the same frame first; the frame
+// of the caller must still report the start of the callee of the OUTER call.
+var argVariants = []string{"none", "call", "call-next-line", "calls", "new", "getter", "method-call", "nested-next-line"}
+
+const (
+	argNone = iota
+	argCall
+	argCallNextLine
+	argCalls
+	argNew
+	argGetter
+	argMethodCall
+	argNestedNextLine
+	nArgVariants
+)
+
+func (g *gen) argHelpers() string {
+	if g.args == argNone {
+		return ""
+	}
+	return " function id(x){ return x; } var gt = {get p(){ return nop(); }}; var o0 = {id: function(x){ return x; }};"
+}
+
+// argList writes the argument list variant into the call being written in w
+// and records, in frame fr, the call sites evaluated on the way.
+func (g *gen) argList(w *tbuf, fr *frame, more bool) {
+	if g.args == argNone {
+		return
+	}
+	if more {
+		w.put(", ")
+	}
+	ref := func(o int) { fr.events = append(fr.events, event{kind: evRef, off: o}) }
+	switch g.args {
+	case argCall:
+		ref(w.put("nop()"))
+	case argCallNextLine:
+		w.put(g.T() + "  ")
+		ref(w.put("nop()"))
+	case argCalls:
+		ref(w.put("nop(), 1, "))
+		o := w.put("id(")
+		ref(w.put("nop()"))
+		w.put(")")
+		ref(o)
+	case argNew:
+		ref(w.put("new Object()") + 4)
+	case argGetter:
+		w.put("gt.p") // the getter's own call is recorded in the getter's frame
+	case argMethodCall:
+		o := w.put("o0.id(")
+		ref(w.put("nop()"))
+		w.put(")")
+		ref(o)
+	case argNestedNextLine:
+		o := w.put("id(" + g.T())
+		n := w.put("new Object(" + g.T())
+		ref(w.put("nop()"))
+		w.put("))")
+		ref(n + 4)
+		ref(o)
+	}
+}
+
+// takesArgs reports whether the call site of shape s has an argument list the
+// variants can extend.
+func takesArgs(s shape) bool {
+	switch s {
+	case shDecl, shAnon, shNamed, shMethodDot, shMethodBr, shCtor, shCtorMember, shBound, shCall, shFunction,
+		shIIFE, shIIFENamed, shCallResult, shNewCallResult, shCondCallee:
+		return true
+	}
+	return false
 }
